@@ -178,7 +178,7 @@ theorem pall_myOpts (c : CreateTable) (hai : optIntOK c.autoIncrement = true) (h
       (pall_optEq [] (by simp) "COMMENT" (by simp [ddlWords]) _ hl.comment))))))
 
 theorem allP_prop (p : ConfigStr) (hl : LeafProp p) : allP (propL p) = true :=
-  allP_eq (allP_src _ (quoted_src _ hl.1)) (allP_src _ hl.2)
+  allP_eq (allP_src _ hl.1) (allP_src _ hl.2)
 
 theorem allP_group (ls : P) (h : PAll ls) : allP (groupL ls) = true := by
   refine allP_paren (allP_cons (by decide) (allP_app (allP_joinLL [',', '\n'] (by decide) _ ?_) (allP_cons (by decide) rfl)))
@@ -434,7 +434,7 @@ theorem src_head (s : String) (h : srcLex s) : ‚àÄ x, s.toList.head? = some x ‚Ü
       rw [‚Üê hx]; exact (alpha_not_quote c hp.1).2.2.2
 
 theorem occ_prop (p : ConfigStr) (hl : LeafProp p) (hq : occ p.name.toList = false ‚àß occ p.value.toList = false) : occ (propL p) = false :=
-  occ_eqJoin _ _ hq.1 hq.2 (src_last _ (quoted_src _ hl.1)) (src_head _ hl.2)
+  occ_eqJoin _ _ hq.1 hq.2 (src_last _ hl.1) (src_head _ hl.2)
 
 theorem occ_group (ls : P) (h : POcc ls) : occ (groupL ls) = false := by
   refine occ_paren (occ_pre '\n' (by decide) _ (occ_post _ '\n' (by decide) (occ_join2 ',' '\n' (by decide) (by decide) _ ?_)))
